@@ -29,7 +29,7 @@ def codec_function_part(chk, tier):
     cases, r = c10.dir2_descs(tier)
     chk.add_tlc(r)
     r2 = cl.tlc_gen("MC_CodecFn", "Counts = {9, 40, 130%s}\nMods = {1, 2, 3, 5, 16%s}\nVCounts = {60, 500}\nVSeeds = {%s}\nLitLens = {3, 17}\nRepOffs = {8, 24, 40}\n"
-                    "RepLens = {5, 64, 300}\nMaxSegs = %d" % (("", "", ", ".join(map(str, range(1, 13))), 2) if tier == "quick" else (", 512", ", 7, 100", ", ".join(map(str, range(1, 41))), 3)), what="MC_CodecFn")
+                    "RepLens = {5, 64, 300}\nMaxSegs = %d" % (("", "", ", ".join(map(str, range(1, 13))), 2) if tier == "quick" else (", 512", ", 7, 100", ", ".join(map(str, range(1, 41))), 2)), what="MC_CodecFn")
     chk.add_tlc(r2)
     page_like = sorted({cl.desc_str(c["desc"]) for c in r2.cases})
     binary = common.build_harness("h_codec")
@@ -37,6 +37,9 @@ def codec_function_part(chk, tier):
     if tier == "quick":
         descs = descs[::max(1, len(descs) // 1000)]
     descs = sorted(set(descs) | set(page_like))
+    cap = 4000 if tier == "quick" else 40000
+    if len(descs) > cap:                       # deterministic thinning (keeps the order-of-magnitude of the run time)
+        descs = descs[::len(descs) // cap + 1]
     lines = ["k%d_%s rec %s 0 %s" % (i, cod, cod, d) for i, d in enumerate(descs) for cod in ("snappy", "lz4", "gzip", "zstd")]
     a, fa, _ = cl.run_parallel(binary, lines, nproc=4, batch=(len(lines) + 3) // 4, leaks=False)
     rl = list(reversed(lines))
@@ -83,9 +86,11 @@ def run(chk, tier, replay):
     hs = histories(chk, tier) + wcommon.count_boundary_histories(chk, tier)
     cfgs = configs(tier)
     execs, meta, files, faults = wcommon.run_histories(chk, hs, cfgs, modes=(), with_file=True, determinism=True)
-    lg = [h for h in wcommon.long_histories(chk, tier) if len(h) > 2]
-    if tier == "quick":
-        lg = lg[::3]
+    # TLC parses every byte of these files (ParquetFile.tla incl. Snappy / LZ4 decoding): files of a few thousand rows
+    # cost seconds each, so the longest histories (C01 reads them back through carquet) are left out here
+    lg = [h for h in wcommon.long_histories(chk, tier)
+          if len(h) > 2 and sum(o["n"] for o in h if o["op"] == "WriteBatch") <= 5000]
+    lg = lg[::3] if tier == "quick" else lg[::2]
     lcfgs = [(0, 1024), (1, 1 << 20), (5, 300), (2, 4096), (6, 64)]
     e3, m3, f3, _ = wcommon.run_histories(chk, lg, lcfgs, modes=(), with_file=True, determinism=True, label="l")
     execs += e3
